@@ -295,6 +295,23 @@ pub(crate) fn blend<S: Sample>(
                     } = region;
                     let right = left.wrapping_add_unsigned(width);
                     let bottom = top.wrapping_add_unsigned(height);
+                    if left < 0
+                        || top < 0
+                        || right as usize > target_grid.width()
+                        || bottom as usize > target_grid.height()
+                    {
+                        // e.g. a frame that is not a canvas (saved before color transform) used as
+                        // the base of blending
+                        tracing::error!(
+                            ?grid_region,
+                            ?base_frame_region,
+                            "Blending base does not cover the area to blend"
+                        );
+                        return Err(jxl_bitstream::Error::ValidationFailed(
+                            "blending base does not cover the area to blend",
+                        )
+                        .into());
+                    }
                     target_grid
                         .as_subgrid_mut()
                         .subgrid(left as usize..right as usize, top as usize..bottom as usize)
@@ -320,6 +337,16 @@ pub(crate) fn blend<S: Sample>(
                         } = region;
                         let right = left.wrapping_add_unsigned(width);
                         let bottom = top.wrapping_add_unsigned(height);
+                        if left < 0
+                            || top < 0
+                            || right as usize > base_alpha_grid.width()
+                            || bottom as usize > base_alpha_grid.height()
+                        {
+                            return Err(jxl_bitstream::Error::ValidationFailed(
+                                "blending base does not cover the area to blend",
+                            )
+                            .into());
+                        }
                         base_alpha_grid
                             .as_subgrid()
                             .subgrid(left as usize..right as usize, top as usize..bottom as usize)
